@@ -15,6 +15,8 @@ import (
 	"go/token"
 	"os"
 	"path/filepath"
+	"reflect"
+	"runtime"
 	"sort"
 	"strconv"
 	"strings"
@@ -121,6 +123,9 @@ func evalIntI(e ast.Expr, env constEnv, iota int, depth int) (int64, bool) {
 		if v, ok := env[x.Name]; ok {
 			return evalIntI(v, env, -1, depth+1)
 		}
+		if v, ok := ctxEnv[x.Name]; ok { // a named constant of the package / of the function last looked up
+			return evalIntI(v, ctxEnv, -1, depth+1)
+		}
 	case *ast.ParenExpr:
 		return evalIntI(x.X, env, iota, depth+1)
 	case *ast.UnaryExpr:
@@ -184,6 +189,12 @@ func evalStr(e ast.Expr, env constEnv) (string, bool) {
 	case *ast.Ident:
 		if v, ok := env[x.Name]; ok {
 			return evalStr(v, env)
+		}
+		if v, ok := ctxEnv[x.Name]; ok {
+			delete(ctxEnv, x.Name) // guards against a cyclic definition
+			s, ok2 := evalStr(v, ctxEnv)
+			ctxEnv[x.Name] = v
+			return s, ok2
 		}
 	case *ast.BinaryExpr:
 		if x.Op == token.ADD {
@@ -260,9 +271,86 @@ func arrayLit(rel, name string) []uint64 {
 	return out
 }
 
-// funcDecl finds a function (recv == "" for plain functions, else receiver type name without *).
-func funcDecl(rel, recv, name string) *ast.FuncDecl {
-	f := parse(rel)
+// ctxEnv: the CONSTANTS (not vars) visible in the function funcDecl returned last — those of every file of its package
+// plus the ones declared inside the function. Expression evaluation falls back to it, so that `count == 100` and
+// `count == batchSize` (with `const batchSize = 100` anywhere in the package or in the function) read the same.
+var ctxEnv = constEnv{}
+
+var pkgEnvCache = map[string]constEnv{}
+
+func pkgFiles(dir string) []string {
+	ents, err := os.ReadDir(filepath.Join(repo, dir))
+	if err != nil {
+		return nil
+	}
+	var out []string
+	for _, e := range ents {
+		n := e.Name()
+		if !e.IsDir() && strings.HasSuffix(n, ".go") && !strings.HasSuffix(n, "_test.go") {
+			out = append(out, filepath.Join(dir, n))
+		}
+	}
+	sort.Strings(out)
+	return out
+}
+
+func constDecls(decls []ast.Decl, env constEnv) {
+	for _, d := range decls {
+		gd, ok := d.(*ast.GenDecl)
+		if !ok || gd.Tok != token.CONST {
+			continue
+		}
+		var lastVals []ast.Expr
+		iota := 0
+		for _, s := range gd.Specs {
+			vs := s.(*ast.ValueSpec)
+			vals := vs.Values
+			if len(vals) == 0 {
+				vals = lastVals
+			} else {
+				lastVals = vals
+			}
+			for i, n := range vs.Names {
+				if i < len(vals) {
+					if _, dup := env[n.Name]; !dup {
+						env[n.Name] = substIota(vals[i], iota)
+					}
+				}
+			}
+			iota++
+		}
+	}
+}
+
+func pkgEnv(dir string) constEnv {
+	if e, ok := pkgEnvCache[dir]; ok {
+		return e
+	}
+	env := constEnv{}
+	for _, rel := range pkgFiles(dir) {
+		if f := parseQuiet(rel); f != nil {
+			constDecls(f.Decls, env)
+		}
+	}
+	pkgEnvCache[dir] = env
+	return env
+}
+
+// parseQuiet: like parse, but a file that does not parse is not a failure of the extraction (only the anchored
+// files are required to parse)
+func parseQuiet(rel string) *ast.File {
+	if f, ok := parsed[rel]; ok {
+		return f
+	}
+	f, err := parser.ParseFile(fset, filepath.Join(repo, rel), nil, parser.SkipObjectResolution)
+	if err != nil {
+		return nil
+	}
+	parsed[rel] = f
+	return f
+}
+
+func findFunc(f *ast.File, recv, name string) *ast.FuncDecl {
 	if f == nil {
 		return nil
 	}
@@ -286,6 +374,39 @@ func funcDecl(rel, recv, name string) *ast.FuncDecl {
 		}
 	}
 	return nil
+}
+
+// funcDecl finds a function (recv == "" for plain functions, else receiver type name without *) in the given file or,
+// when it was moved, in another file of the same package; it also sets ctxEnv.
+func funcDecl(rel, recv, name string) *ast.FuncDecl {
+	fd := findFunc(parse(rel), recv, name)
+	if fd == nil {
+		for _, other := range pkgFiles(filepath.Dir(rel)) {
+			if other == rel {
+				continue
+			}
+			if fd = findFunc(parseQuiet(other), recv, name); fd != nil {
+				break
+			}
+		}
+	}
+	ctxEnv = constEnv{}
+	for k, v := range pkgEnv(filepath.Dir(rel)) {
+		ctxEnv[k] = v
+	}
+	if fd != nil && fd.Body != nil {
+		local := constEnv{}
+		ast.Inspect(fd.Body, func(n ast.Node) bool {
+			if ds, ok := n.(*ast.DeclStmt); ok {
+				constDecls([]ast.Decl{ds.Decl}, local)
+			}
+			return true
+		})
+		for k, v := range local {
+			ctxEnv[k] = v
+		}
+	}
+	return fd
 }
 
 func srcOf(n ast.Node) string {
@@ -355,7 +476,18 @@ func leanBytesList(ss []string) string {
 	return "[" + strings.Join(parts, ", ") + "]"
 }
 
+// pending: the files of the generator that is running; they are written only if it recognised everything it looks for
+var pending map[string]string
+
 func writeIfChanged(name, content string) {
+	if pending != nil {
+		pending[name] = content
+		return
+	}
+	writeNow(name, content)
+}
+
+func writeNow(name, content string) {
 	p := filepath.Join(outDir, name)
 	old, err := os.ReadFile(p)
 	if err == nil && string(old) == content {
@@ -387,19 +519,76 @@ type fp struct{ key, rel, recv, name string }
 var fingerprints []fp
 
 // generators are registered by the per-property files (init functions).
-var generators []func()
+type generator struct {
+	name string
+	fn   func()
+}
 
-func register(g func()) { generators = append(generators, g) }
+var generators []generator
+
+func register(g func()) {
+	n := runtime.FuncForPC(reflect.ValueOf(g).Pointer()).Name()
+	generators = append(generators, generator{strings.TrimPrefix(n, "main."), g})
+}
 
 func addFP(key, rel, recv, name string) { fingerprints = append(fingerprints, fp{key, rel, recv, name}) }
+
+// refDir: the generated files of the tree the models were written against (corpus/generated.ref, recorded together
+// with the anchor hashes). When a generator does not RECOGNISE the shape of the source any more (a function was
+// restructured, a literal became a named expression it cannot fold, a closure was lifted …) it cannot say what the
+// fact is now; that is not a changed fact. Its files are then taken from refDir, the generator is listed in
+// factgen.unrecognised, and ./check ties the model of the affected properties by the correspondence run alone (with the
+// escalated budget) and says so. A fact that IS recognised and differs is written as it is and breaks its theorem.
+var refDir string
 
 func main() {
 	flag.StringVar(&repo, "repo", "/repo/src", "module root")
 	flag.StringVar(&outDir, "out", "/verif/lean/RSVerif/Generated", "output dir")
+	flag.StringVar(&refDir, "ref", "", "reference copies of the generated files")
 	flag.Parse()
 	os.MkdirAll(outDir, 0755)
+	var unrecognised []string
 	for _, g := range generators {
-		g()
+		before := len(failures)
+		pending = map[string]string{}
+		func() {
+			defer func() {
+				if e := recover(); e != nil {
+					fail("%s: extractor panicked: %v", g.name, e)
+				}
+			}()
+			g.fn()
+		}()
+		files := pending
+		pending = nil
+		if len(failures) == before {
+			for n, c := range files {
+				writeNow(n, c)
+			}
+			continue
+		}
+		msgs := append([]string{}, failures[before:]...)
+		restored := len(files) > 0 && refDir != ""
+		if restored {
+			for n := range files {
+				ref, err := os.ReadFile(filepath.Join(refDir, n))
+				if err != nil {
+					restored = false
+					break
+				}
+				files[n] = string(ref)
+			}
+		}
+		if !restored {
+			continue // hard failure: the messages stay in `failures`
+		}
+		failures = failures[:before]
+		for n, c := range files {
+			writeNow(n, c)
+		}
+		for _, m := range msgs {
+			unrecognised = append(unrecognised, g.name+"\t"+strings.ReplaceAll(m, "\n", " "))
+		}
 	}
 	// fingerprints
 	sort.Slice(fingerprints, func(i, j int) bool { return fingerprints[i].key < fingerprints[j].key })
@@ -408,6 +597,14 @@ func main() {
 		fmt.Fprintf(&b, "%s %s\n", f.key, fingerprint(f.rel, f.recv, f.name))
 	}
 	writeIfChanged("fingerprints.txt", b.String())
+	if len(unrecognised) > 0 {
+		os.WriteFile(filepath.Join(outDir, "factgen.unrecognised"), []byte(strings.Join(unrecognised, "\n")+"\n"), 0644)
+		for _, u := range unrecognised {
+			fmt.Println("UNRECOGNISED\t" + u)
+		}
+	} else {
+		os.Remove(filepath.Join(outDir, "factgen.unrecognised"))
+	}
 	if len(failures) > 0 {
 		for _, f := range failures {
 			fmt.Fprintln(os.Stderr, "factgen: "+f)
